@@ -315,7 +315,13 @@ func (w *World) verifyFunc(fn *ssa.Function, ct *Contract, safetyProps []string)
 		// (plus its own extra clauses); interface parameter names are bound by position.
 		eff := *ct
 		eff.Requires = append(append([]*Clause{}, ict.Requires...), ct.Requires...)
-		eff.Ensures = append(append([]*Clause{}, ict.Ensures...), ct.Ensures...)
+		eff.Ensures = nil
+		for _, c := range ict.Ensures {
+			if !c.Ghost {
+				eff.Ensures = append(eff.Ensures, c)
+			}
+		}
+		eff.Ensures = append(eff.Ensures, ct.Ensures...)
 		eff.Lets = append(append([]letDef{}, ict.Lets...), ct.Lets...)
 		eff.Props = unionProps(ct.Props, ict.Props)
 		if !ct.HasAsg {
